@@ -5,8 +5,10 @@
                the model allows (Go map order decides which), and the real per-rule cache/index contents (read
                through inhibit/verif_export.go) equal the model's as sets.
    prop_case : executable form of the property on the model run: at every observation point the model's verdict
-               equals the documented existential rule evaluated over the alerts firing in the history since the
-               inhibitor was (re)started, and every fingerprint the model may report is a witness. *)
+               equals the documented existential rule evaluated over the alerts firing in the WHOLE history
+               (latest published update per fingerprint, restarts included), every fingerprint the model may
+               report is a witness, and the recorded history satisfies the theorems' hypothesis hist_ok (every
+               restart's snapshot is what the provider contract says: latest versions, all unresolved present). *)
 From AM Require Export Base.Prelude Model.Matchers Model.Inhibit.
 
 Record obs := mkObs {
@@ -22,7 +24,10 @@ Inductive xop :=
 | XPut (l : Z) (starts ends upd : Z)  (* the inhibitor was sent this update of label set number l *)
 | XGC
 | XTick
-| XReset.     (* configuration reload: a fresh Inhibitor (which then slurps the provider's alerts: XPut ops) *)
+| XRestart (snap pend : list (Z * Z * Z * Z)).
+    (* a NEW Inhibitor is started (initial start, configuration reload): the provider handed it the snapshot
+       snap (in the provider's order) and the updates pend were published after the snapshot was taken and
+       before the inhibitor processed any of it; entries are (label set number, StartsAt, EndsAt, UpdatedAt) *)
 
 Record case := mkCase {
   c_re : re_table;
@@ -32,12 +37,14 @@ Record case := mkCase {
 
 Definition lset_of (c : case) (i : Z) : list (string * string) :=
   if i <? 0 then [("<unknown>", "")] else nth (Z.to_nat i) (c_lsets c) [("<unknown>", "")].
-Definition op_of (c : case) (x : xop) : option op :=
+Definition alert_of (c : case) (x : Z * Z * Z * Z) : alert :=
+  let '(l, s, e, u) := x in mkA (lset_of c l) s e u.
+Definition op_of (c : case) (x : xop) : op :=
   match x with
-  | XPut l s e u => Some (OProcess (mkA (lset_of c l) s e u))
-  | XGC => Some (OGC (fun _ => true))
-  | XTick => Some OTick
-  | XReset => None
+  | XPut l s e u => OProcess (mkA (lset_of c l) s e u)
+  | XGC => OGC (fun _ => true)
+  | XTick => OTick
+  | XRestart snap pend => ORestart (map (alert_of c) snap) (map (alert_of c) pend)
   end.
 
 Definition subset_b {A} `{EqDecision A} (l1 l2 : list A) : bool := forallb (fun x => bool_decide (x ∈ l2)) l1.
@@ -46,16 +53,15 @@ Definition same_classes {A} `{EqDecision A} (l1 l2 : list (list A)) : bool :=
   forallb (fun c => existsb (same_set c) l2) l1 && forallb (fun c => existsb (same_set c) l1) l2 &&
   (length l1 =? length l2)%nat.
 
-(* the model state and the history segment since the last (re)start, after each operation *)
+(* the model state and the history so far, after each operation *)
 Fixpoint points (c : case) (ih : list irule) (seg : list (Z * op))
     (h : list (Z * xop * option obs)) : list (list irule * list (Z * op) * Z * option obs) :=
   match h with
   | [] => []
   | (now, x, ob) :: rest =>
-      let '(ih', seg') := match op_of c x with
-                          | Some o => (step (re_of_table (c_re c)) ih now o, seg ++ [(now, o)])
-                          | None => (map new_rule (c_rules c), [])
-                          end in
+      let o := op_of c x in
+      let ih' := step (re_of_table (c_re c)) ih now o in
+      let seg' := seg ++ [(now, o)] in
       (ih', seg', now, ob) :: points c ih' seg' rest
   end.
 Definition case_points (c : case) := points c (map new_rule (c_rules c)) [] (c_hist c).
@@ -92,9 +98,8 @@ Definition check_point (c : case) (p : list irule * list (Z * op) * Z * option o
   end.
 Definition check_case (c : case) : bool := forallb (check_point c) (case_points c).
 
-(* alerts firing at now according to a history segment: latest update per fingerprint, unresolved at now *)
-Definition seg_fps (seg : list (Z * op)) : list (list (string * string)) :=
-  flat_map (fun x => match snd x with OProcess a => [a_lbls a] | _ => [] end) seg.
+(* alerts firing at now according to a history: latest published update per fingerprint, unresolved at now *)
+Definition seg_fps (seg : list (Z * op)) : list (list (string * string)) := hist_fps seg.
 Definition firing_list (seg : list (Z * op)) (now : Z) : list alert :=
   flat_map (fun f => match latest seg f with
                      | Some a => if resolved_at a now then [] else [a]
@@ -112,4 +117,5 @@ Definition prop_point (c : case) (p : list irule * list (Z * op) * Z * option ob
         negb (beq fs []) &&
         forallb (fun f => existsb (fun s => beq (a_lbls s) f && existsb (fun r => inhibitsb re r s ls) (c_rules c)) fire) fs
     end) (c_lsets c).
-Definition prop_case (c : case) : bool := forallb (prop_point c) (case_points c).
+Definition case_hist (c : case) : list (Z * op) := map (fun x => (fst (fst x), op_of c (snd (fst x)))) (c_hist c).
+Definition prop_case (c : case) : bool := forallb (prop_point c) (case_points c) && hist_okb [] (case_hist c).
